@@ -101,8 +101,8 @@ class Ref(object):
                             if P:
                                 ops.append(["add_ppump", l, a, b, "P"])
                             ops.append(["add_valve", l, a, b, "TCV"])
-                            if self.nodes[a]["t"] == "junc" and self.nodes[b]["t"] == "junc":
-                                ops.append(["add_valve", l, a, b, "PRV"])
+                            # a PRV next to a tank / reservoir is refused by a documented rule: a refusal must leave no trace
+                            ops.append(["add_valve", l, a, b, "PRV"])
             else:
                 d = self.links[l]
                 ops.append(["remove_link", l, False])
@@ -171,6 +171,8 @@ class Ref(object):
         elif k == "add_ppump":
             self.links[op[1]] = {"t": "ppump", "a": op[2], "b": op[3], "cv": None, "sp": op[4]}
         elif k == "add_valve":
+            if op[4] == "PRV" and (self.nodes[op[2]]["t"] != "junc" or self.nodes[op[3]]["t"] != "junc"):
+                return "refuse"
             self.links[op[1]] = {"t": op[4], "a": op[2], "b": op[3], "sp": None, "cv": None}
         elif k == "add_pattern":
             self.pats.add(op[1])
